@@ -539,6 +539,12 @@ func runC18Overlap(c *vCtx, scratch string, idx int64) {
 	frameLogIntervalFirstMin, frameLogInterval = 15, 60*5
 	var mu sync.Mutex
 	stallAfter := rng.Range(1, 20)
+	if A.count-stallAfter > 250 {
+		// the stalled writer holds one buffer and the queue the rest: with more than 256 frames
+		// outstanding the reader (correctly) blocks on back-pressure and the first connection
+		// could never end while the stall lasts
+		stallAfter = A.count - 250
+	}
 	dequeued := 0
 	stalled := false
 	release := make(chan struct{})
